@@ -1310,6 +1310,8 @@ pub fn c07_conc(_sc: &Scenario, hx: &Hx, v: &mut Verdict) {
 
 /// C08 (concurrent half): unawaited upserts by the only writer of a key. At quiescence the charged
 /// weight and the value of the key are those of the owner's last effective operation.
+const D12: &str = "C08/in-place-upsert-overtook-queued-put-or-delete/conc";
+
 pub fn c08_conc(sc: &Scenario, hx: &Hx, v: &mut Verdict) {
     if hx.first_shutdown_inv().is_some() {
         return;
@@ -1328,6 +1330,12 @@ pub fn c08_conc(sc: &Scenario, hx: &Hx, v: &mut Verdict) {
         // expected (weight, value) after replaying the owner's operations in program order
         let mut cur: Option<(i64, u64)> = None;
         let mut known = true;
+        // An in-place upsert takes effect on the caller thread at once. If an earlier Put / Delete of
+        // the same key by the same thread is still queued at that moment, the upsert overtakes it:
+        // the implementation no longer applies the owner's writes in submission order (finding D12,
+        // of which "upsert on an entry marked deleted" is one case). Program order stays the
+        // expectation; a mismatch on such a key is reported under D12's signature.
+        let mut overtook = false;
         for (i, w) in ws.iter().enumerate() {
             if i > 0 {
                 // was the previous command still in flight when this call was made?
@@ -1374,17 +1382,30 @@ pub fn c08_conc(sc: &Scenario, hx: &Hx, v: &mut Verdict) {
                             break;
                         }
                     } else {
-                        // in place: needs an entry to act on
+                        // in place
+                        let pending_conflict = ws[..i].iter().any(|p| {
+                            matches!(p.cmd_kind.as_deref(), Some("Put") | Some("PutWithTTL") | Some("Delete"))
+                                && p.apply_end.map(|e| e.0 > w.inv).unwrap_or(true)
+                        });
+                        if pending_conflict {
+                            overtook = true;
+                        }
                         match cur {
                             Some((cw, cv)) => {
                                 let nv = val.unwrap_or(cv);
                                 let nw = weight.or_else(|| val.map(|x| weight_of(&sc.cfg.weight_fn, k, x, false))).unwrap_or(cw);
                                 cur = Some((nw, nv));
                             }
-                            None => {
-                                known = false;
-                                break;
-                            }
+                            None => match (pending_conflict, val, st) {
+                                // the key read as absent: the upsert has to behave like the corresponding put
+                                (true, Some(x), St::Accepted) => {
+                                    cur = Some((weight.unwrap_or_else(|| weight_of(&sc.cfg.weight_fn, k, *x, false)), *x));
+                                }
+                                _ => {
+                                    known = false;
+                                    break;
+                                }
+                            },
                         }
                     }
                 }
@@ -1409,7 +1430,7 @@ pub fn c08_conc(sc: &Scenario, hx: &Hx, v: &mut Verdict) {
                 if charged != Some(w_exp) {
                     v.fail(
                         "C08",
-                        "C08/weight-not-applied/conc".to_string(),
+                        if overtook { D12.to_string() } else { "C08/weight-not-applied/conc".to_string() },
                         format!("k{}: after the owner's operations the charged weight must be {}, the cache charges {:?}", k, w_exp, charged),
                         hx.len,
                     );
@@ -1418,7 +1439,7 @@ pub fn c08_conc(sc: &Scenario, hx: &Hx, v: &mut Verdict) {
                     if *got != Some(v_exp) {
                         v.fail(
                             "C08",
-                            "C08/value-not-applied/conc".to_string(),
+                            if overtook { D12.to_string() } else { "C08/value-not-applied/conc".to_string() },
                             format!("k{}: the owner's last effective value is {:x}, the cache returns {:x?}", k, v_exp, got),
                             hx.len,
                         );
@@ -1428,7 +1449,7 @@ pub fn c08_conc(sc: &Scenario, hx: &Hx, v: &mut Verdict) {
             (Some((_, v_exp)), None) => {
                 v.fail(
                     "C08",
-                    "C08/accepted-but-lost/conc".to_string(),
+                    if overtook { D12.to_string() } else { "C08/accepted-but-lost/conc".to_string() },
                     format!("k{}: the owner's operations leave value {:x} in the cache (nothing can be evicted), but the key is gone", k, v_exp),
                     hx.len,
                 );
@@ -1436,7 +1457,7 @@ pub fn c08_conc(sc: &Scenario, hx: &Hx, v: &mut Verdict) {
             (None, Some(e)) => {
                 v.fail(
                     "C08",
-                    "C08/unexpected-entry/conc".to_string(),
+                    if overtook { D12.to_string() } else { "C08/unexpected-entry/conc".to_string() },
                     format!("k{}: the owner's operations leave the key absent, but the store holds id {}", k, e.1),
                     hx.len,
                 );
